@@ -334,6 +334,65 @@ func factsAt(b *ssa.BasicBlock) []fact {
 	return out
 }
 
+// factsAtLocal is factsAt restricted to b's own function.
+func factsAtLocal(b *ssa.BasicBlock) []fact {
+	old := inlineAware
+	inlineAware = false
+	defer func() { inlineAware = old }()
+	return factsAt(b)
+}
+
+// sameLoadedValue: a and b are the same value, or loads of the same local cell with no store in between
+// being visible to this cheap test (same block, or the cell is written once).
+func sameLoadedValue(a, b ssa.Value) bool {
+	if a == b {
+		return true
+	}
+	la, okA := isLoad(a)
+	lb, okB := isLoad(b)
+	if !okA || !okB || la.X != lb.X {
+		return false
+	}
+	if _, isAlloc := la.X.(*ssa.Alloc); !isAlloc {
+		return false
+	}
+	if la.Block() == lb.Block() {
+		lo, hi := indexIn(la), indexIn(lb)
+		if lo > hi {
+			lo, hi = hi, lo
+		}
+		for _, i := range la.Block().Instrs[lo:hi] {
+			if st, ok := i.(*ssa.Store); ok && st.Addr == la.X {
+				return false
+			}
+		}
+		return true
+	}
+	// different blocks: accept when no store to the cell lies in a block strictly between them
+	// (the tested load dominates the returned one and the cell is not written in that region)
+	if !la.Block().Dominates(lb.Block()) && !lb.Block().Dominates(la.Block()) {
+		return false
+	}
+	first, second := la, lb
+	if lb.Block().Dominates(la.Block()) {
+		first, second = lb, la
+	}
+	for _, r := range refs(la.X) {
+		if st, ok := r.(*ssa.Store); ok && st.Addr == la.X {
+			if first.Block().Dominates(st.Block()) && st.Block() != first.Block() && (st.Block() == second.Block() || st.Block().Dominates(second.Block())) {
+				return false
+			}
+			if st.Block() == first.Block() && indexIn(st) > indexIn(first) {
+				return false
+			}
+			if st.Block() == second.Block() && indexIn(st) < indexIn(second) {
+				return false
+			}
+		}
+	}
+	return true
+}
+
 // trueImpliesIf returns the If instruction whose true branch is taken whenever
 // boolean v evaluates to true, looking through `||` φs: for `if a || b {T}`
 // both a and b map to the If that guards T.
@@ -408,44 +467,144 @@ func implIf(v ssa.Value, val bool, depth int) *ssa.If {
 // included and cut the path).
 func explore(start ssa.Instruction, inclusive bool, stop func(ssa.Instruction) bool) map[ssa.Instruction]bool {
 	reached := map[ssa.Instruction]bool{}
-	visited := map[*ssa.BasicBlock]bool{}
-	contDone := map[*ssa.Call]bool{}
-	var walk func(b *ssa.BasicBlock, from int)
-	walk = func(b *ssa.BasicBlock, from int) {
+	if !inlineAware || curProgram == nil {
+		visited := map[*ssa.BasicBlock]bool{}
+		var walk func(b *ssa.BasicBlock, from int)
+		walk = func(b *ssa.BasicBlock, from int) {
+			for k := from; k < len(b.Instrs); k++ {
+				i := b.Instrs[k]
+				if stop != nil && stop(i) {
+					return
+				}
+				reached[i] = true
+			}
+			for _, s := range b.Succs {
+				if !visited[s] {
+					visited[s] = true
+					walk(s, 0)
+				}
+			}
+		}
+		k := indexIn(start)
+		if !inclusive {
+			k++
+		}
+		walk(start.Block(), k)
+		return reached
+	}
+	// Inline-aware: a call of a single-site helper continues inside the helper, and each of the
+	// helper's returns continues after that call knowing which values that return produced (so a
+	// caller's `if err != nil` after `x, err := helper()` follows only the matching edge).
+	type binding struct {
+		call *ssa.Call
+		ret  *ssa.Return
+	}
+	budget := 4000
+	var walk func(b *ssa.BasicBlock, from int, env []binding, visited map[*ssa.BasicBlock]bool)
+	decide := func(cond ssa.Value, env []binding) (bool, bool) {
+		var resultOf func(v ssa.Value) (ssa.Value, bool)
+		resultOf = func(v ssa.Value) (ssa.Value, bool) {
+			// `x, err = helper()` with err a captured variable: the test reads the cell just stored
+			if ld, isL := isLoad(v); isL {
+				blk := ld.Block()
+				for j := indexIn(ld) - 1; j >= 0; j-- {
+					if st, isSt := blk.Instrs[j].(*ssa.Store); isSt && st.Addr == ld.X {
+						return resultOf(st.Val)
+					}
+				}
+				return nil, false
+			}
+			for k := len(env) - 1; k >= 0; k-- {
+				e := env[k]
+				if ex, ok := v.(*ssa.Extract); ok && ex.Tuple == ssa.Value(e.call) && ex.Index < len(e.ret.Results) {
+					return e.ret.Results[ex.Index], true
+				}
+				if v == ssa.Value(e.call) && len(e.ret.Results) == 1 {
+					return e.ret.Results[0], true
+				}
+			}
+			return nil, false
+		}
+		if r, ok := resultOf(cond); ok {
+			if cb, isC := constBool(r); isC {
+				return cb, true
+			}
+			return false, false
+		}
+		bo, ok := cond.(*ssa.BinOp)
+		if !ok || (bo.Op != token.EQL && bo.Op != token.NEQ) || !isNilConst(bo.Y) {
+			return false, false
+		}
+		r, ok := resultOf(bo.X)
+		if !ok {
+			return false, false
+		}
+		switch {
+		case isNilConst(r):
+			return bo.Op == token.EQL, true
+		case definitelyNonNil(r):
+			return bo.Op == token.NEQ, true
+		}
+		// `if err != nil { return x, err }`: the returned value is known non-nil where it is returned
+		for k := len(env) - 1; k >= 0; k-- {
+			for _, f := range factsAtLocal(env[k].ret.Block()) {
+				fb, isB := f.Cond.(*ssa.BinOp)
+				if !isB || !isNilConst(fb.Y) || !sameLoadedValue(fb.X, r) {
+					continue
+				}
+				isNil := fb.Op == token.EQL && f.Val || fb.Op == token.NEQ && !f.Val
+				notNil := fb.Op == token.NEQ && f.Val || fb.Op == token.EQL && !f.Val
+				if isNil {
+					return bo.Op == token.EQL, true
+				}
+				if notNil {
+					return bo.Op == token.NEQ, true
+				}
+			}
+		}
+		return false, false
+	}
+	walk = func(b *ssa.BasicBlock, from int, env []binding, visited map[*ssa.BasicBlock]bool) {
+		if budget--; budget < 0 {
+			return
+		}
 		for k := from; k < len(b.Instrs); k++ {
 			i := b.Instrs[k]
 			if stop != nil && stop(i) {
 				return
 			}
-			if inlineAware && curProgram != nil {
-				// a call of a single-site helper continues inside the helper; the helper's
-				// returns continue after that call (the view obtained by inlining it back)
-				if call, ok := i.(*ssa.Call); ok {
-					if h := call.Call.StaticCallee(); h != nil && len(h.Blocks) > 0 && singleSite(curProgram, h) == call {
-						reached[i] = true
-						if !visited[h.Blocks[0]] {
-							visited[h.Blocks[0]] = true
-							walk(h.Blocks[0], 0)
-						}
-						return
-					}
+			if call, ok := i.(*ssa.Call); ok {
+				if h := call.Call.StaticCallee(); h != nil && len(h.Blocks) > 0 && singleSite(curProgram, h) == call {
+					reached[i] = true
+					walk(h.Blocks[0], 0, env, map[*ssa.BasicBlock]bool{h.Blocks[0]: true})
+					return
 				}
-				if _, ok := i.(*ssa.Return); ok {
-					if cs := singleSite(curProgram, b.Parent()); cs != nil {
-						if !contDone[cs] {
-							contDone[cs] = true
-							walk(cs.Block(), indexIn(cs)+1)
-						}
-						return
-					}
+			}
+			if ret, ok := i.(*ssa.Return); ok {
+				if cs := singleSite(curProgram, b.Parent()); cs != nil {
+					walk(cs.Block(), indexIn(cs)+1, append(append([]binding(nil), env...), binding{cs, ret}), map[*ssa.BasicBlock]bool{})
+					return
 				}
 			}
 			reached[i] = true
 		}
-		for _, s := range b.Succs {
+		succs := b.Succs
+		if len(b.Instrs) > 0 && len(env) > 0 {
+			if ifi, ok := b.Instrs[len(b.Instrs)-1].(*ssa.If); ok && len(b.Succs) == 2 {
+				if val, known := decide(ifi.Cond, env); known {
+					delete(reached, ssa.Instruction(ifi)) // not a branch in the inlined view
+					if val {
+						succs = b.Succs[:1]
+					} else {
+						succs = b.Succs[1:]
+					}
+				}
+			}
+		}
+		for _, s := range succs {
 			if !visited[s] {
 				visited[s] = true
-				walk(s, 0)
+				walk(s, 0, env, visited)
 			}
 		}
 	}
@@ -453,8 +612,24 @@ func explore(start ssa.Instruction, inclusive bool, stop func(ssa.Instruction) b
 	if !inclusive {
 		k++
 	}
-	walk(start.Block(), k)
+	walk(start.Block(), k, nil, map[*ssa.BasicBlock]bool{})
 	return reached
+}
+
+// definitelyNonNil: a value that cannot be nil (a freshly built error or object).
+func definitelyNonNil(v ssa.Value) bool {
+	switch x := v.(type) {
+	case *ssa.Call:
+		switch callName(&x.Call) {
+		case "fmt.Errorf", "errors.New":
+			return true
+		}
+	case *ssa.MakeInterface:
+		return definitelyNonNil(x.X) || !isNilConst(x.X) && func() bool { _, isC := x.X.(*ssa.Const); return isC }()
+	case *ssa.Alloc, *ssa.MakeClosure, *ssa.MakeMap, *ssa.MakeSlice, *ssa.MakeChan, *ssa.Function:
+		return true
+	}
+	return false
 }
 
 // exploreBlock is explore from the first instruction of b.
